@@ -132,14 +132,16 @@ SplitFrom(s, p, from) ==
     IF k = 0 THEN <<SubSeq(s, from, Len(s))>>
     ELSE <<SubSeq(s, from, k - 1)>> \o SplitFrom(s, p, k + Len(p))
 
-Split(s, p) == IF p = <<>> THEN RAny ELSE RStrs(SplitFrom(s, p, 1))
+\* the empty pattern is encountered at every character boundary, the two ends included
+SplitEmpty(s) == <<<<>>>> \o [i \in 1 .. Len(s) |-> <<s[i]>>] \o <<<<>>>>
+Split(s, p) == RStrs(IF p = <<>> THEN SplitEmpty(s) ELSE SplitFrom(s, p, 1))
 
 RECURSIVE Join(_, _)
 Join(ss, p) == IF ss = <<>> THEN <<>>
                ELSE IF Len(ss) = 1 THEN ss[1]
                ELSE ss[1] \o p \o Join(Tail(ss), p)
 
-Replace(s, p, r) == IF p = <<>> THEN RAny ELSE RStr(Join(SplitFrom(s, p, 1), r))
+Replace(s, p, r) == RStr(Join(Split(s, p).v, r))
 
 \* split where the predicate holds for a grapheme cluster (the function form of split)
 RECURSIVE SplitClu(_, _, _, _)
